@@ -191,11 +191,27 @@ func (vc *VC) assume(cond, fact string) {
 	if vc.inlineMode {
 		return
 	}
-	f := imp(cond, fact)
-	if f == "true" {
-		return
+	// one assertion per top-level conjunct: finer query slicing
+	for _, part := range flattenAnd(fact) {
+		f := imp(cond, part)
+		if f == "true" {
+			continue
+		}
+		vc.script = append(vc.script, "(assert "+f+")")
 	}
-	vc.script = append(vc.script, "(assert "+f+")")
+}
+
+// flattenAnd splits nested (and ...) terms into their conjuncts.
+func flattenAnd(t string) []string {
+	op, args, ok := splitSexp(t)
+	if !ok || op != "and" {
+		return []string{t}
+	}
+	var out []string
+	for _, a := range args {
+		out = append(out, flattenAnd(a)...)
+	}
+	return out
 }
 
 // define introduces a named constant equal to term (keeps VC size linear).
@@ -295,7 +311,7 @@ func (vc *VC) setHeapTracked(st *State, name, sort, term string) {
 	st.heap.m[name] = vc.define("h", sort, term)
 }
 
-type heapMod struct{ key, cond string }
+type heapMod struct{ key, cond, site string } // site: path condition where the modification happens
 
 // leafLoc computes (heap name, heap sort, key terms) for one leaf of a value
 // of type d.T stored at location d.
@@ -364,7 +380,7 @@ func (vc *VC) storeDesc(st *State, d *PtrDesc, v Val) {
 	for k, ll := range vc.leafLocs(d) {
 		if !vc.freshKeys[ll.key] {
 			vc.dirty[ll.name] = true
-			vc.heapMods[ll.name] = append(vc.heapMods[ll.name], heapMod{key: ll.key})
+			vc.heapMods[ll.name] = append(vc.heapMods[ll.name], heapMod{key: ll.key, site: st.cond})
 		}
 		h := vc.heapTerm(st, ll.name, ll.sort)
 		var nt string
